@@ -694,7 +694,7 @@ func TestC11(t *testing.T) {
 			return
 		}
 		cc := *c
-		cc.Text, cc.Start = j.Text, j.Start || j.Start
+		cc.Text, cc.Start = j.Text, j.Start || j.StartNo
 		var obs interface{} = st
 		if st == "" {
 			obs = o
